@@ -158,17 +158,43 @@ def run_case(desc):
             proj.write_app(a, versions, evolutions,
                            nv=list(range(n + 1)), init_extra=extra)
         db = 'db.sqlite3'
+        # a third of the projects: the observed database is a second,
+        # non-default one; the default database is upgraded completely
+        # first, so what is pending differs between the two
+        second = desc['i'] % 3 == 1 and not g['cyclic']
+        kw = {}
+        if second:
+            stats['second_database_projects'] = 1
+            kw = {'db2': 'other.sqlite3', 'args': {'database': 'other'}}
+            for av in (g['applied'], g['nevo']):
+                ev = proj.run('evolve_api', db=db, apps=apps,
+                              db2='other.sqlite3',
+                              app_versions={a: av[a] for a in apps})
+                if ev.get('driver_error') or not ev['outcome']['ok']:
+                    # (a run the single-database projects judge)
+                    second, kw = False, {}
+                    import os
+                    os.unlink(proj.path(db))
+                    stats['second_database_projects'] = 0
+                    break
         ev = proj.run('evolve_api', db=db, apps=apps,
-                      app_versions={a: g['applied'][a] for a in apps})
+                      app_versions={a: g['applied'][a] for a in apps}, **kw)
         if ev.get('driver_error') or not ev['outcome']['ok']:
             return {'key': S.canon(desc), 'nontrivial': False, 'items': [],
                     'stats': {'skipped_install_failed': 1},
                     'case': jsonable(g),
                     'harness_error': str(ev.get('outcome') or ev)[:500]}
+        if second:
+            db_default, db = db, 'other.sqlite3'
+            sha_default = proj.sha(db_default)
         sha = proj.sha(db)
         drv = rng.choice(['evolve_api', 'evolve_cmd'])
-        ev = proj.run(drv, db=db, apps=apps,
-                      app_versions={a: g['nevo'][a] for a in apps})
+        ev = proj.run(drv, db=db if not second else db_default, apps=apps,
+                      app_versions={a: g['nevo'][a] for a in apps}, **kw)
+        if second and not ev.get('driver_error') and \
+                proj.sha(db_default) != sha_default:
+            items.append({'type': 'DEFAULT_DATABASE_CHANGED',
+                          'driver': drv})
         if ev.get('driver_error'):
             return {'key': S.canon(desc), 'nontrivial': False, 'items': [],
                     'stats': stats, 'case': jsonable(g),
@@ -181,7 +207,7 @@ def run_case(desc):
             elif e['kind'] == 'graph':
                 graph_order = [tuple(k.split(':')[1:3]) for k in e['keys']
                                if k.startswith('evolution:')]
-        ctx = {'cyclic': g['cyclic'], 'driver': drv}
+        ctx = {'cyclic': g['cyclic'], 'driver': drv, 'second_db': second}
         o = ev['outcome']
         if g['cyclic']:
             stats['unsatisfiable_checked'] = 1
